@@ -13,13 +13,14 @@ import (
 )
 
 type SolveResult struct {
-	Status    string // unsat sat unknown timeout error
-	Solver    string
-	Seconds   float64
-	Model     string
-	Raw       string
-	Second    string // confirming solver (thorough tier)
-	Candidate bool   // model obtained without the quantified axioms
+	Status       string // unsat sat unknown timeout error
+	Solver       string
+	Seconds      float64
+	Model        string
+	Raw          string
+	Second       string // confirming solver (thorough tier)
+	Candidate    bool   // model obtained without the quantified axioms
+	SomeTimedOut bool   // no answer, and at least one solver ran out of time or failed
 }
 
 type solverSpec struct {
@@ -180,6 +181,11 @@ func solveObligation(o *Obligation, dir string, timeout time.Duration, confirm b
 			raws = append(raws, fmt.Sprintf("[%s %s %.1fs] %s", r.Solver, r.Status, r.Seconds, firstLines(r.Raw, 3)))
 		}
 		best.Raw = strings.Join(raws, "\n")
+		for _, r := range all {
+			if r.Status == "timeout" || r.Status == "error" {
+				best.SomeTimedOut = true // another solver might have decided it with more time
+			}
+		}
 		winner = &best
 	}
 	o.Result = winner
@@ -258,10 +264,17 @@ func solveAll(obls []*Obligation, dir string, timeout time.Duration, confirm boo
 	close(ch)
 	wg.Wait()
 	// Under load a solver may be killed or time out on an easy goal: retry the undecided ones one at a time, with more time.
+	slowRetries := 0
 	for _, o := range obls {
-		if o.Result == nil || o.Result.Status == "error" || o.Result.Status == "timeout" || (o.WantSat && o.Result.Status != "sat" && o.Result.Status != "unsat") {
+		again := o.Result == nil || o.Result.Status == "error" || o.Result.Status == "timeout" || (o.WantSat && o.Result.Status != "sat" && o.Result.Status != "unsat")
+		if !again && !o.WantSat && o.Result.Status == "unknown" && o.Result.SomeTimedOut && slowRetries < 12 {
+			// one solver gave up at once, the others ran out of time: under load that is not a verdict
+			again = true
+			slowRetries++
+		}
+		if again {
 			first := o.Result
-			t := 2 * timeout
+			t := 3 * timeout
 			if o.WantSat {
 				t = 10 * time.Second
 			}
